@@ -267,7 +267,7 @@ def all_subsets(in4, out4, limit, rng):
 
 def plan(tier, seed):
     n = 16 if tier == "quick" else 48
-    return [{"kind": "layout", "shard": i, "seed": seed, "examples": 6 if tier == "quick" else 35, "limit": 6 if tier == "quick" else 0} for i in range(n)]
+    return [{"kind": "layout", "shard": i, "seed": seed, "examples": 6 if tier == "quick" else 90, "limit": 6 if tier == "quick" else 0} for i in range(n)]
 
 
 def work(sh):
